@@ -265,7 +265,7 @@ func TestVerifC14(t *testing.T) {
 func c14Synthetic(t *testing.T) {
 	const check = "C14.synthetic"
 	res := verifrt.NewResult(check)
-	res.Rule = "crash texts: random bytes; structured tracebacks from a grammar (0-3 goroutines in any status, the running one first/later/absent, 0-200 frames with arbitrary symbol/argument/file text incl. sigpanic look-alikes, frames without pc=, created-by lines, sentinel relocated by 0/4KiB/huge/wrapping deltas, PCs = genuine function PCs of this binary, 0, 1, 2^64-1) and metamorphic variants differing only in non-PC text (messages, arguments, paths, other symbols not equal to runtime.sigpanic, other goroutines, extra sentinel lines after the first, removed/garbled sentinel). Oracle: terminates within the tick budget without panic; result is an error, the fixed no-running-goroutine name, or crash/crash + <= 16 physical frames, <= 4096 bytes; equals EncodeStack of the harness's own relocated PC list; variants give the same name or an error; canary tokens placed in every text position never occur in the name. distinct = distinct report texts; non-trivial = report has a running goroutine with >= 1 PC"
+	res.Rule = "crash texts: random bytes; structured tracebacks from a grammar (0-3 goroutines in any status, the running one first/later/absent, 0-200 frames with arbitrary symbol/argument/file text incl. sigpanic look-alikes, frames without pc=, created-by lines, sentinel relocated by 0/4KiB/huge/wrapping deltas, PCs = genuine function PCs of this binary, 0, 1, 2^64-1) and metamorphic variants differing only in non-PC text (messages, multi-line tab-indented messages quoting goroutine dumps, arguments, paths, other symbols not equal to runtime.sigpanic, other goroutines, extra sentinel lines after the first, removed/garbled sentinel). Oracle: terminates within the tick budget without panic; result is an error, the fixed no-running-goroutine name, or crash/crash + <= 16 physical frames, <= 4096 bytes; equals EncodeStack of the harness's own relocated PC list; variants give the same name or an error; canary tokens placed in every text position never occur in the name. distinct = distinct report texts; non-trivial = report has a running goroutine with >= 1 PC"
 	n := verifrt.Scale(12000, 1000000)
 	for i := 0; i < n; i++ {
 		if !verifrt.WantCase(check, i) {
@@ -331,7 +331,22 @@ func c14Synthetic(t *testing.T) {
 					break
 				}
 			}
-			switch k := rnd.Intn(7); k {
+			switch k := rnd.Intn(8); k {
+			case 7:
+				// a multi-line panic value that quotes a goroutine dump: the runtime
+				// prints a tab after every newline of the value, so the quoted lines
+				// are message text, not a goroutine header or frames
+				kind = "multiline-message"
+				other := pcB(3)
+				q := []string{"panic: worker failed " + canary + "Z: quoted traceback follows", "\tgoroutine 7 [running]:"}
+				for k, pc := range other {
+					q = append(q, fmt.Sprintf("\tquoted.f%d(0x1)", k), fmt.Sprintf("\t\t/q/%sZ.go:%d +0x1d pc=%#x", canary, k, uint64(pc)))
+				}
+				if rnd.Intn(2) == 0 {
+					q = append(q, "\t", fmt.Sprintf("\tsentinel %x", sentinel()+0x770000))
+				}
+				q = append(q, " [recovered]", "")
+				vr.Mid = q
 			case 0:
 				kind = "message"
 				vr.Mid = []string{"panic: completely different " + canary + "Z text", "fatal error: all goroutines are asleep", ""}
@@ -398,7 +413,7 @@ func c14Synthetic(t *testing.T) {
 			res.Sample(map[string]any{"case": i, "report_head": fmt.Sprintf("%.400s", text), "name": trunc(name), "err": fmt.Sprint(err)})
 		}
 	}
-	res.Require("named", "error", "no-running-goroutine", "more-than-16-frames", "truncated-name", "variant:message", "variant:extra-sentinel-later", "variant:other-symbols")
+	res.Require("named", "error", "no-running-goroutine", "more-than-16-frames", "truncated-name", "variant:message", "variant:multiline-message", "variant:extra-sentinel-later", "variant:other-symbols")
 	if err := res.Write(); err != nil {
 		t.Fatal(err)
 	}
@@ -462,6 +477,10 @@ func verifCrashC(kind string) {
 	switch kind {
 	case "panic":
 		panic("oops " + kind)
+	case "panic-quoting-traceback":
+		// an error value that spans lines and quotes another goroutine's dump
+		pc := pcB(2)
+		panic(fmt.Errorf("worker failed:\ngoroutine 7 [running]:\nquoted.f(0x1)\n\t/q/q.go:1 +0x1d pc=%#x\nquoted.g(0x1)\n\t/q/q.go:2 +0x1d pc=%#x\n\ngoroutine 8 [running]:\nquoted.h()\n\t/q/q.go:3 +0x1 pc=%#x\n", pc[0], pc[1], pc[0]))
 	case "nilderef":
 		var p *int
 		crashSink = *p
@@ -507,10 +526,10 @@ func TestVerifC14Crasher(t *testing.T) {
 func c14Real(t *testing.T) {
 	const check = "C14.real"
 	res := verifrt.NewResult(check)
-	res.Rule = "the test binary is re-executed with crashmonitor.Parent(file) installed and crashes through verifCrashA -> B -> C by: explicit panic, nil dereference, nil map write, out-of-range index in an inlined callee, integer divide by zero, unlock of an unlocked mutex (fatal error), stack overflow, each also on a non-main goroutine; the captured report is named by telemetryCounterName in this process. Oracle: the name starts with crash/crash and lists verifCrashC, verifCrashB, verifCrashA in that order (innermost first), within the length and frame bounds. distinct = crash kinds"
+	res.Rule = "the test binary is re-executed with crashmonitor.Parent(file) installed and crashes through verifCrashA -> B -> C by: explicit panic, a panic whose multi-line error value quotes another traceback, nil dereference, nil map write, out-of-range index in an inlined callee, integer divide by zero, unlock of an unlocked mutex (fatal error), stack overflow, each also on a non-main goroutine; the captured report is named by telemetryCounterName in this process. Oracle: the name starts with crash/crash and lists verifCrashC, verifCrashB, verifCrashA in that order (innermost first), within the length and frame bounds. distinct = crash kinds"
 	dir, _ := os.MkdirTemp(os.Getenv("VERIF_TMP"), "c14-")
 	defer os.RemoveAll(dir)
-	kinds := []string{"panic", "nilderef", "nilmap", "index-inlined", "divide", "unlock", "recursion"}
+	kinds := []string{"panic", "panic-quoting-traceback", "nilderef", "nilmap", "index-inlined", "divide", "unlock", "recursion"}
 	reps := verifrt.Scale(1, 12)
 	ci := 0
 	for rep := 0; rep < reps; rep++ {
@@ -559,7 +578,7 @@ func c14Real(t *testing.T) {
 			}
 		}
 	}
-	res.Require("real:panic", "real:nilderef", "real:index-inlined", "real:unlock", "real:recursion")
+	res.Require("real:panic", "real:panic-quoting-traceback", "real:nilderef", "real:index-inlined", "real:unlock", "real:recursion")
 	if err := res.Write(); err != nil {
 		t.Fatal(err)
 	}
